@@ -386,8 +386,12 @@ pub fn gen_bad_attr(ch: &mut Chooser) -> String {
 // ---------------------------------------------------------------------------
 // G5 payload type expressions (text level: arbitrary segment names)
 
-pub const TYPE_SEGMENTS: [&str; 16] =
-    ["crate", "std", "String", "Vec", "Option", "usize", "a", "B", "_x", "T", "collections", "HashMap", "Box", "u8", "Self_", "x1"];
+pub const TYPE_SEGMENTS: [&str; 26] = [
+    "crate", "std", "String", "Vec", "Option", "usize", "a", "B", "_x", "T", "collections", "HashMap", "Box", "u8", "Self_", "x1",
+    // segments that CONTAIN names a textual substitution might be after: helper names, pool names of nonterminals /
+    // terminals / the terminal enum, keywords of the path syntax
+    "MyNode", "StateMachine", "EofMarker", "TokenKind", "SelfRef", "NonSelfish", "FooBar", "selfish", "supercrate", "A2",
+];
 
 pub fn gen_type(ch: &mut Chooser, depth: usize, max_depth: usize) -> RType {
     let k = ch.pick(6);
